@@ -72,7 +72,8 @@ AlgIsRef == J => \A i \in 1..NN :
                 LET m == MatchL(p, NameSeq[i], 0) IN
                 /\ MatchAlgL(p, NameSeq[i], 0) = m
                 /\ ~Quick(p, NameSeq[i]) => ~m
-CompileRule == CompileOk(p) = (IF HasBrace THEN Balanced(p) ELSE CompileOkFlat(p))
+CompileRule == /\ CompileOk(p) = (IF HasBrace THEN Balanced(p) ELSE CompileOkFlat(p))
+               /\ DepthOK(p, 1, 0) = DepthOKRef(p, 1, 0)                     \* fold = recursion
 PlainIdentical == Kind(p) = "plain" => \A i \in 1..NN : MatchL(p, NameSeq[i], 0) = (p = NameSeq[i])
 
 (***************************************************************************)
